@@ -60,7 +60,7 @@ func hasSymByte(v value) bool {
 		return false
 	}
 	for _, x := range sl {
-		if _, ok := x.(symBV); ok {
+		if b, ok := x.(symBV); ok && b.w == 8 {
 			return true
 		}
 	}
@@ -73,8 +73,12 @@ func isByteSliceOrString(v value) bool {
 		return true
 	case []value:
 		for _, x := range v {
-			switch x.(type) {
-			case uint8, symBV:
+			switch b := x.(type) {
+			case uint8:
+			case symBV:
+				if b.w != 8 {
+					return false
+				}
 			default:
 				return false
 			}
